@@ -56,18 +56,18 @@ TIERS = {
     # all digraphs (self-loops included) on <= MaxClasses classes x variants x root sequences
     "quick": dict(
         runs=[dict(name="n3", MaxClasses=3,
-                   variants=_variants([("src", range(12), False), ("mix", (0, 5), False),
-                                       ("deep", (1, 6), False), ("uni", (4, 9), False)]),
+                   variants=_variants([("src", range(0, 12, 2), False), ("uni", (1, 5, 7), False),
+                                       ("mix", (0, 5), False), ("deep", (1, 6), False)]),
                    roots=[[1], [2], [3, 1]])],
         live=dict(MaxClasses=3, variants=_variants([("deep", (4,), False)]), roots=ROOTS3),
         random=400, random_classes=(4, 6)),
     "thorough": dict(
         runs=[dict(name="n3", MaxClasses=3,
                    variants=_variants([(m, range(12), False) for m in MODES]),
-                   roots=ROOTS3),
-              dict(name="n4", MaxClasses=4,
-                   variants=_variants([("uni", (0,), True), ("mix", (1,), True)]),
-                   roots=[[1], [2, 1]])],
+                   roots=[[1], [2], [3, 1], [2, 2], [2, 3, 1]]),
+              # 4 classes: one (graph-dependent) rotation per labelled graph
+              dict(name="n4a", MaxClasses=4, variants=_variants([("uni", (0,), True)]), roots=[[2, 1]]),
+              dict(name="n4b", MaxClasses=4, variants=_variants([("mix", (1,), True)]), roots=[[1]])],
         live=dict(MaxClasses=3, variants=_variants([(m, (2 + i,), False) for i, m in enumerate(MODES)]),
                   roots=ROOTS3),
         random=6000, random_classes=(4, 8)),
